@@ -27,6 +27,10 @@ BOUNDS = {
 }
 
 
+# request shapes: the small graphs get every nesting and the empty request; the largest quick graphs only scalar/flat and list-first
+REQ = {False: dict(), True: dict(allow_empty=False, shapes=(0, 2))}
+
+
 def functions():
     return SC.sched_functions()
 
@@ -77,10 +81,10 @@ def oracle(e, spec, want, log):
             e.check(d in pos_post and pos_post[d] < pos_pre[k], f"{k!r} started before its dependency {d!r} finished")
 
 
-def mk(N, kinds, chunks=SC.CHUNKSIZES):
+def mk(N, kinds, chunks=SC.CHUNKSIZES, small=False):
     def setup(e):
         spec = SC.gen_graph(e, N, kinds)
-        want, shape = SC.gen_request(e, N)
+        want, shape = SC.gen_request(e, N, **REQ[small])
         nw = e.int("num_workers", 1)
         cs = e.pick("chunksize", chunks)
         return spec, want, shape, nw, cs
@@ -94,11 +98,41 @@ def mk(N, kinds, chunks=SC.CHUNKSIZES):
         oracle(e, spec, want, log)
         return [ev[:2] for ev in log if ev[0] in ("submit", "exec")]
 
-    return Obligation(f"once[N={N},kinds={'+'.join(kinds)}]", setup, run)
+    return Obligation(f"once[N={N},kinds={'+'.join(kinds)}{',fewshapes' if small else ''}]", setup, run)
+
+
+def mk_precached(N, kinds):
+    """the caller supplies cache= holding stale values under keys of graph literals (e.g. left over from an earlier call with
+    another graph) and an unrelated entry: tasks must still receive the values the *graph* denotes"""
+    def setup(e):
+        spec = SC.gen_graph(e, N, kinds)
+        e.assume(any(s["kind"] == "data" for s in spec))
+        want, shape = SC.gen_request(e, N, allow_empty=False, shapes=(1,))
+        stale = {j: e.int(f"stale{j}", -2, 2) for j, s in enumerate(spec) if s["kind"] == "data" and e.flag(f"pre{j}")}
+        e.assume(len(stale) > 0)
+        nw = e.int("num_workers", 1)
+        cs = e.pick("chunksize", (-1, 1, 2))
+        return spec, want, shape, stale, nw, cs
+
+    def run(e, spec, want, shape, stale, nw, cs):
+        log = []
+        dsk = SC.build(spec, log, {})
+        keys, pack = SC.request_keys(want, shape)
+        cache = {SC.key_of(j): v for j, v in stale.items()}
+        cache["unrelated"] = 7
+        mon = SC.Monitors(log, e)
+        res = SC.run_scheduler(e, dsk, keys, nw, cs, log, callbacks=[mon.tuple("m", "pP")], cache=cache)
+        oracle(e, spec, want, log)
+        exp = pack([SC.ref_value(spec, j) for j in want])
+        e.check(lambda: e.equal(res, exp), "result computed from a stale cache entry instead of the graph's literal")
+        e.check("unrelated" in cache and cache["unrelated"] == 7, "the scheduler touched a cache entry it does not own")
+        return res
+
+    return Obligation(f"precached[N={N},kinds={'+'.join(kinds)}]", setup, run)
 
 
 def obligations(tier):
     A, B = ("task", "data", "alias"), ("legacy", "listarg", "legacylist")
     if tier == "quick":
-        return [mk(1, SC.ALL_KINDS), mk(2, SC.ALL_KINDS), mk(3, A), mk(3, B)]
-    return [mk(1, SC.ALL_KINDS), mk(2, SC.ALL_KINDS), mk(3, SC.ALL_KINDS), mk(4, A)]
+        return [mk(1, SC.ALL_KINDS), mk(2, SC.ALL_KINDS), mk(3, A, small=True), mk(3, B, small=True), mk(3, SC.NONE_KINDS, small=True), mk_precached(3, ("task", "data", "legacy"))]
+    return [mk(1, SC.ALL_KINDS), mk(2, SC.ALL_KINDS), mk(3, SC.ALL_KINDS), mk(3, SC.NONE_KINDS), mk(4, A), mk_precached(3, SC.ALL_KINDS), mk_precached(4, ("task", "data"))]
